@@ -115,6 +115,18 @@ def run(ctx, prop):
                      {'script': None, 'intake': {'cl': [], 'uids': [3], 'things': [3]}})
     ctx.sample({'script': scripts[-1], 'observed_events': [o['events'] for o in
                 schedlib.run_script(rp, scripts[-1])[1]]}, limit=1)
+    # how many scripts meet the hypothesis of the whole-history theorems (release messages name held
+    # placements: RunOK), and does the model agree that capacity is restored when nothing is held
+    try:
+        rk = common.model('sched', [dict(o, op='runok') for o in ops])
+        dist['history_hypothesis_met'] = sum(1 for r in rk if isinstance(r, dict) and r.get('run_ok'))
+        dist['history_hypothesis_met_and_quiescent'] = sum(1 for r in rk if isinstance(r, dict) and r.get('run_ok') and r.get('held') == 0)
+        bad_restore = [i for i, r in enumerate(rk) if isinstance(r, dict) and r.get('run_ok') and r.get('held') == 0 and not r.get('restored')]
+        ctx.obligation('whole-history theorems: hypothesis RunOK met by %d of %d scripts (%d of them end with nothing held); '
+                       'model node map restored on all of those' % (dist['history_hypothesis_met'], len(ops), dist['history_hypothesis_met_and_quiescent']),
+                       'tie', dist['history_hypothesis_met'] > 0 and not bad_restore, str(bad_restore[:3]))
+    except Exception as e:
+        ctx.obligation('whole-history theorems: hypothesis evaluated on the scripts', 'tie', False, repr(e))
     ctx.extra['distribution'] = dist
     common.compare(ctx, 'sched', ops, impl, canon=schedlib.canon_model,
                    what='real AgentSchedulingComponent._schedule_tasks loop (Continuous): events, node map, wait pool, counters per iteration')
